@@ -64,12 +64,13 @@ def tstr(t):
 
 
 class Executor:
-    def __init__(self, fn, models=None, max_paths=20000, max_steps=4000, follow_yields=True):
+    def __init__(self, fn, models=None, max_paths=20000, max_steps=4000, follow_yields=True, max_visits=None):
         self.fn = fn
         self.paths = []
         self.max_paths = max_paths
         self.max_steps = max_steps
         self.follow_yields = follow_yields
+        self.max_visits = max_visits   # loop bound: a path may enter each block at most this often
         self.unsupported = []
 
     # ---- memory ---------------------------------------------------------------------------
@@ -370,6 +371,10 @@ class Executor:
                 raise Unsupported("step limit")
             blk = self.fn.blocks[bb]
             path.visited.append(bb)
+            if self.max_visits is not None and path.visited.count(bb) > self.max_visits:
+                path.end = ("loop-bound", bb)
+                self.bounded = getattr(self, "bounded", 0) + 1
+                return
             for s in blk.stmts:
                 self.statement(s, path)
             t = blk.term
